@@ -75,7 +75,8 @@ impl Clock for FClock {
         let ok = !self.fail.contains(&n);
         self.log.push((ClockCmd::Step(offset), ok));
         if ok {
-            self.now = self.now + offset;
+            // a real clock stays inside its own range (the property's timestamp domain [0, 2^63 ns))
+            self.now = (self.now + offset).min(Time::from_nanos((1 << 63) - 1));
             Ok(self.now)
         } else {
             Err(ClockFail)
@@ -211,7 +212,7 @@ fn judge(filter: &str, kc: Option<KCfg>, start: u64, seq: &[FEv], fail: &[u64], 
                 if let Some(k) = kc {
                     let thr = (k.step_threshold_ns as i128) << 32;
                     // from_seconds(f64) rounding: allow one part in 2^40
-                    if dur_to_bits(*d).abs() < thr - (thr >> 40) - 1 {
+                    if dur_to_bits(*d).unsigned_abs() < (thr - (thr >> 40) - 1) as u128 {
                         bounds.push(Violation {
                             signature: format!("{filter}:step-below-threshold"),
                             message: format!("{filter} stepped by {} ns, threshold {} ns in call {i} of {:?}", d.nanos_lossy(), k.step_threshold_ns, seq),
@@ -330,6 +331,66 @@ pub fn sweep(tier: Tier) -> Sweep {
             s.bounds = dedup(std::mem::take(&mut s.bounds));
         }
     }
+    // long periodic histories (zero-variance sample sets, saturated servo): every pattern of
+    // period 1..3 over the pruned alphabet repeated to 24 calls, and (E2 style) every single
+    // substitution into the period-1 (quick) / period-1-and-2 (thorough) histories
+    {
+        const LEN: usize = 24;
+        let mut hists: Vec<Vec<FEv>> = vec![];
+        for period in 1..=tier.pick(2usize, 3usize) {
+            for pat in enumerate(&pruned, period) {
+                hists.push((0..LEN).map(|i| pat[i % period]).collect());
+            }
+        }
+        let n_base = hists.len();
+        for period in 1..=tier.pick(1usize, 2usize) {
+            for pat in enumerate(&pruned, period) {
+                let base: Vec<FEv> = (0..LEN).map(|i| pat[i % period]).collect();
+                for pos in [0usize, 1, 5, 11, 12, 23] {
+                    for e in &pruned {
+                        if *e != base[pos] {
+                            let mut h = base.clone();
+                            h[pos] = *e;
+                            hists.push(h);
+                        }
+                    }
+                }
+            }
+        }
+        let res: Vec<(u64, u64, Vec<Violation>, Vec<Violation>, Vec<u64>)> = hists
+            .par_iter()
+            .map(|seq| {
+                let mut p = vec![];
+                let mut b = vec![];
+                let mut hashes = vec![];
+                let mut c = 0;
+                let mut n = 0;
+                for &kc in &configs[..2] {
+                    let r = run_filter::<KalmanFilter>(kalman_cfg(kc), 1_000_000_000, seq, &[]);
+                    n += 1;
+                    c += r.cmds.len() as u64;
+                    hashes.push(hash_cmds(&r));
+                    judge("kalman", Some(kc), 1_000_000_000, seq, &[], &r, &mut p, &mut b);
+                }
+                let r = run_filter::<BasicFilter>(0.25, 1_000_000_000, seq, &[]);
+                n += 1;
+                c += r.cmds.len() as u64;
+                hashes.push(hash_cmds(&r));
+                judge("basic", None, 1_000_000_000, seq, &[], &r, &mut p, &mut b);
+                (n, c, dedup(p), dedup(b), hashes)
+            })
+            .collect();
+        for (n, c, p, b, h) in res {
+            s.sequences += n;
+            s.commands += c;
+            s.panics.extend(p);
+            s.bounds.extend(b);
+            traces.extend(h);
+        }
+        s.panics = dedup(std::mem::take(&mut s.panics));
+        s.bounds = dedup(std::mem::take(&mut s.bounds));
+        s.samples.push(json!({"periodic_base_histories": n_base, "with_substitution": hists.len() - n_base, "length": LEN}));
+    }
     // clock-failure deviations: every single and every pair of failing clock calls
     // (among the first 6) on all pruned sequences of length 3
     let seqs = enumerate(&pruned, 3);
@@ -368,7 +429,7 @@ pub fn sweep(tier: Tier) -> Sweep {
     s.panics = dedup(std::mem::take(&mut s.panics));
     s.bounds = dedup(std::mem::take(&mut s.bounds));
     s.distinct_command_traces = traces.len();
-    s.samples = vec![json!({"filter": "kalman", "start_ns": 1_000_000_000u64, "seq": [FEv::M(Kind::Sync, 1_100_000, 1_000_000_000), FEv::M(Kind::Delay, -1_100_000, 0), FEv::Update]})];
+    s.samples.push(json!({"filter": "kalman", "start_ns": 1_000_000_000u64, "seq": [FEv::M(Kind::Sync, 1_100_000, 1_000_000_000), FEv::M(Kind::Delay, -1_100_000, 0), FEv::Update]}));
     s
 }
 
